@@ -1050,7 +1050,7 @@ def main_loop(ctx, h, add, report, dist, onepu=False):
     from joserfc.jwk import KeySet, JWKRegistry
     from joserfc.errors import InvalidKeyIdError
     rng = h.rng
-    n_scen = ctx.scale(40, 1500) if onepu else ctx.scale(240, 9000)
+    n_scen = ctx.scale(36, 450) if onepu else ctx.scale(200, 3000)
     for scen in range(n_scen):
         # ------------------------------------------------------------ produce
         if onepu:
@@ -1110,6 +1110,7 @@ def main_loop(ctx, h, add, report, dist, onepu=False):
             judge_consume(h, crec, verdicts, report, "token produced by the library")
         # public set: export, import, consume (asymmetric keys only)
         if spec["src"] == "set" and spec["mode"] != "bykid":
+            rec["add"] = add
             public_roundtrip(h, rec, used, token, report, add)
         # ------------------------------------------------------------ forged tokens against the set
         forged_consume(ctx, h, add, report, spec, rec)
@@ -1247,6 +1248,7 @@ def public_roundtrip(h, rec, used, token, report, add):
     if exp[0] != "ok":
         report({"kind": "export-raises"}, "KeySet.as_dict(private=False) raised %r" % (exp[1],), spec)
         return
+    check_public_entries(h, rec, exp[1]["keys"], report)
     ents = [d for d in exp[1]["keys"] if d.get("kty") != "oct"]     # an oct key has no public form
     pub = call(KeySet.import_key_set, {"keys": copy.deepcopy(ents)})
     if pub[0] != "ok":
@@ -1290,6 +1292,21 @@ def public_roundtrip(h, rec, used, token, report, add):
                 ("guess", "public set consume", spec, pool_ids(spec)))
 
 
+def check_public_entries(h, rec, entries, report):
+    """KeySet.as_dict(private=False): one entry per key, in order, each with the key's kid and type"""
+    spec = rec["spec"]
+    want = [(k.kid, k.key_type) for k in rec["keys"]]
+    got = [(d.get("kid"), d.get("kty")) for d in entries]
+    if want != got:
+        report({"kind": "export-entries"}, "KeySet.as_dict(private=False) entries (kid, kty) %r differ from the keys %r" % (got, want), spec)
+    add = rec.get("add")
+    if add is not None and len(entries) == len(rec["keys"]):
+        ids = [h.tid[_thumb(d)] if d.get("kty") != "oct" else h.mid(k) for d, k in zip(entries, rec["keys"])]
+        add("CExport %s %s" % (h.c_keys(rec["keys"]), c_list(["(%s, %s, %s)" % (
+            c_opt(d.get("kty"), lambda t: '"%s"%%string' % t), c_opt(d.get("kid"), c_str), c_N(i)) for d, i in zip(entries, ids)])),
+            ("as_dict", "public", spec, pool_ids(spec)))
+
+
 def public_set_checks(h, rec, report):
     from joserfc.jwk import KeySet
     spec = rec["spec"]
@@ -1297,6 +1314,7 @@ def public_set_checks(h, rec, report):
     if exp[0] != "ok":
         report({"kind": "export-raises"}, "KeySet.as_dict(private=False) raised %r" % (exp[1],), spec)
         return
+    check_public_entries(h, rec, exp[1]["keys"], report)
     ents = [d for d in exp[1]["keys"] if d.get("kty") != "oct"]
     if not ents:
         return
